@@ -332,6 +332,13 @@ func (p SimpleCommonMessageSignatureProof) MergeSparse(s SparseSignatureProof) S
 	bsBefore := p.bitset.Clone()
 
 	for _, sparseSig := range s.Signatures {
+		if len(sparseSig.KeyID) != 2 {
+			// The key ID must be exactly a big endian uint16,
+			// matching HasSparseKeyID and the KeyIDChecker.
+			res.AllValidSignatures = false
+			continue
+		}
+
 		// Assuming the index can be represented in a 16 bit integer.
 		// This type is certainly not intended to support 32k public keys.
 		n := int(binary.BigEndian.Uint16(sparseSig.KeyID))
